@@ -37,7 +37,10 @@ class PettingZooAutoResetParallelWrapper(ParallelEnv):
         dict[AgentID, dict],
     ]:
         obs, rewards, terminations, truncations, infos = self.env.step(actions)
-        if np.all(list(terminations.values()) or list(truncations.values())):
+        # An agent is done when it terminated or was truncated (element-wise or)
+        if np.all(
+            np.logical_or(list(terminations.values()), list(truncations.values()))
+        ):
             obs, infos = self.env.reset()
         return obs, rewards, terminations, truncations, infos
 
